@@ -93,8 +93,25 @@ theorem direct_success_cost_below {n : ℕ} {ρ : Type} (s : Sampler ℝ) (inB :
     obtain ⟨hany, _⟩ := (hok.2 rfl).1 hb
     exact hcost_lt_real _ _ c (all_c s c hphs) hany
   | false =>
-    obtain ⟨_, d, hd, p, hp, ht, _, _⟩ := (hok.2 rfl).2 hb
+    obtain ⟨_, _, d, hd, p, hp, ht, _, _⟩ := (hok.2 rfl).2 hb
     exact (direct_phs_branch_cost_below s c hphs (hball d hd).1 (hball d hd).2 hp ht).2
+
+/-- The same conclusion from the re-test of the fixed loop alone: no geometric hypothesis and no
+hypothesis on the ball points is needed, only that every PHS has transverse diameter `c`. -/
+theorem direct_success_cost_below_retest {ρ : Type} (s : Sampler ℝ) (inB : List ℝ × ρ → Bool)
+    (c : ℝ) (ds : List (Draw ℝ ρ)) (cur : List ℝ × ρ)
+    (hbase : ∀ d ∈ ds, inB (d.baseInf, d.baseRest) = true)
+    (hall : ∀ p ∈ (s.update c).phss, p.c = c)
+    (hf : (s.sample2 inB true c ds cur).2.found = true) :
+    inB (s.sample2 inB true c ds cur).2.st = true ∧
+    (s.update c).isInAny (s.sample2 inB true c ds cur).2.st.1 = true ∧
+    ∃ h, (s.update c).hcost (s.sample2 inB true c ds cur).2.st.1 = some h ∧ h < c := by
+  obtain ⟨hin, hok, _, _, _⟩ := sample_success_sound s inB true c ds cur hbase hf
+  have hany : (s.update c).isInAny (s.sample2 inB true c ds cur).2.st.1 = true := by
+    cases hb : (s.update c).useBoundsBranch with
+    | true => exact ((hok.2 rfl).1 hb).1
+    | false => exact ((hok.2 rfl).2 hb).2.1
+  exact ⟨hin, hany, hcost_lt_real _ _ c hall hany⟩
 
 end PhsCap
 end OmplModel.Phs
